@@ -79,7 +79,19 @@ def parse_time_atom(a: str):
     us, pres = a.split("@")
     dt = dt_of(int(us))
     if pres == "naive":
-        # the local wall clock reading of that instant in the process's zone
+        # the local wall clock reading of that instant in the process's zone, with the PEP 495 `fold`
+        # flag that makes it denote this instant (astimezone() without a zone yields a fixed offset and
+        # loses the fold, so go through the zone database by name)
+        import os
+
+        tz = os.environ.get("TZ")
+        if tz:
+            try:
+                from zoneinfo import ZoneInfo
+
+                return dt.astimezone(ZoneInfo(tz)).replace(tzinfo=None)
+            except Exception:
+                pass
         return dt.astimezone().replace(tzinfo=None)
     return dt.astimezone(timezone(timedelta(minutes=int(pres))))
 
